@@ -91,16 +91,24 @@ pub trait SingleTargetRegression<F: Float, T: AsSingleTargets<Elem = F>>:
             .mean()
             .ok_or(Error::NotEnoughSamples)?;
 
+        let ss_tot = single_target_compare_to
+            .mapv(|x| (x - mean) * (x - mean))
+            .sum();
+        // only a constant target needs a guard against 0 / 0; adding it to every denominator
+        // made the score depend on the unit of the target
+        let ss_tot = if ss_tot > F::zero() {
+            ss_tot
+        } else {
+            F::cast(1e-10)
+        };
+
         Ok(F::one()
             - self
                 .as_single_targets()
                 .sub(&single_target_compare_to)
                 .mapv_into(|x| x * x)
                 .sum()
-                / (single_target_compare_to
-                    .mapv(|x| (x - mean) * (x - mean))
-                    .sum()
-                    + F::cast(1e-10)))
+                / ss_tot)
     }
 
     /// Same as R-Squared but with biased variance
